@@ -55,7 +55,10 @@ type simAPI struct {
 	// crashOn: substring of "METHOD path" -> the process dies when it sends this request
 	crashOn map[string]bool
 	delay   func(method, path string) time.Duration
-	clock   int64
+	// hold: called for every POST outside the lock, with the name of the object; may block (the barrier harness
+	// keeps creates in flight with it)
+	hold  func(path, name string)
+	clock int64
 	// trace: mutating requests (with object names) and waiter calls, in order
 	trace []string
 }
@@ -102,6 +105,15 @@ func (s *simAPI) rt(req *http.Request) (*http.Response, error) {
 	s.mu.Unlock()
 	if d > 0 {
 		time.Sleep(d)
+	}
+	if s.hold != nil && req.Method == "POST" {
+		var o struct {
+			Metadata struct {
+				Name string `json:"name"`
+			} `json:"metadata"`
+		}
+		json.Unmarshal(body, &o)
+		s.hold(p, o.Metadata.Name)
 	}
 	s.mu.Lock()
 	defer s.mu.Unlock()
